@@ -24,8 +24,8 @@ func (Prop) Plan(t vp.Tier) []vp.Stage {
 		}
 	}
 	return []vp.Stage{
-		{Name: "programs", NBatches: 16, TimeoutS: 900},
-		{Name: "programs-race", NBatches: 4, Race: true, TimeoutS: 900},
+		{Name: "programs", NBatches: 16, TimeoutS: 2400},
+		{Name: "programs-race", NBatches: 4, Race: true, TimeoutS: 2400},
 	}
 }
 
